@@ -58,6 +58,9 @@ def one(ctx: Ctx, cs, n_pairs=80):
     g0 = kpx.grid(y0)
     ctx.cls(*sorted(doc.tags))
     rng = random.Random(cs ^ 0xC15)
+    # a second, independent import of the same text: no transposition of `d` may show in it
+    bystander, _, _ = kpx.loads(x)
+    bystander_snap = kpx.snapshot(bystander) if bystander is not None else None
     names = list(I.INTERVALS)
     pairs = [(n, up) for n in names for up in (True, False)]
     if n_pairs < len(pairs):
@@ -108,6 +111,14 @@ def one(ctx: Ctx, cs, n_pairs=80):
             ctx.violation('result-export-raises', f'{name} {direction}: export of the result raised {type(err).__name__}: {err}', case)
             d, _, _ = kpx.loads(x)
             continue
+        if bystander is not None and k_ % 5 == 0:
+            ctx.mon('bystander_document_checks')
+            if kpx.snapshot(bystander) != bystander_snap:
+                ctx.violation('other-document-changed', f'{name} {direction}: transposing one Document changed ANOTHER Document imported '
+                              f'separately from the same text (export now {"equal to" if kpx.dumps(bystander)[0] == y0 else "different from"} '
+                              f'the original)', case)
+                bystander, _, _ = kpx.loads(x)
+                bystander_snap = kpx.snapshot(bystander)
         # source document after the call
         ctx.mon('source_checks')
         if ys != y0:
